@@ -45,23 +45,19 @@ def sort_keys(st, frame_src):
 def enforce_shape(st, frame_src, env):
     """`enforce_invariant_non_subset = set(<df>['col']) == {CONST}` -> (col, const value), else None"""
     if isinstance(st, ast.Assign) and len(st.targets) == 1 and isinstance(st.targets[0], ast.Name) \
-            and st.targets[0].id == 'enforce_invariant_non_subset':
+            and isinstance(st.value, ast.Compare) and isinstance(st.value.left, ast.Call) and ast.unparse(st.value.left.func) == 'set':
         v = st.value
         if isinstance(v, ast.Compare) and len(v.ops) == 1 and isinstance(v.ops[0], ast.Eq) and isinstance(v.left, ast.Call) \
                 and ast.unparse(v.left.func) == 'set' and len(v.left.args) == 1 and isinstance(v.left.args[0], ast.Subscript) \
                 and ast.unparse(v.left.args[0].value) == frame_src and isinstance(v.left.args[0].slice, ast.Constant) \
                 and isinstance(v.comparators[0], ast.Set) and len(v.comparators[0].elts) == 1 \
                 and isinstance(v.comparators[0].elts[0], ast.Name) and isinstance(env.get(v.comparators[0].elts[0].id), str):
-            return v.left.args[0].slice.value, env[v.comparators[0].elts[0].id]
-        raise Fail(f'enforce_invariant_non_subset = {ast.unparse(v)[:80]}')
+            return st.targets[0].id, v.left.args[0].slice.value, env[v.comparators[0].elts[0].id]
+        raise Fail(f'{st.targets[0].id} = {ast.unparse(v)[:80]}')
     return None
 
 
-STATE_TYPES = {'current_group': 'nat', 'current_invariant': 'str', 'current_literal_type': 'str', 'current_global_group': 'str',
-               'enforce_invariant_non_subset': 'bool'}
-
-
-def translate_body(loop, env, name, frame_src, rules2=None, rules2_binding=None, translated=()):
+def translate_body(loop, env, name, frame_src, STATE_TYPES, rules2=None, rules2_binding=None, translated=()):
     """loop body -> (lean def text, state variable names in order, written cells in order)"""
     i_var, r_var = loop.target.elts[0].id, loop.target.elts[1].id
     used = {n.id for st in loop.body for n in ast.walk(st) if isinstance(n, ast.Name)}
@@ -79,7 +75,7 @@ def translate_body(loop, env, name, frame_src, rules2=None, rules2_binding=None,
     lines, monadic, ends_raise = tr.block(loop.body, '  ')
     if monadic or ends_raise:
         raise Fail('loop body is not pure')
-    state = [n for n, _ in tr.param_binders if n in [x for x, _ in decl] and n != tr.v('enforce_invariant_non_subset')]
+    state = [n for n, _ in tr.param_binders if n in [x for x, _ in decl]]
     outs = [n for n, _ in decl if n.startswith('o_')]
     other = [n for n, _ in decl if n not in state and n not in outs]
     if other:
@@ -103,7 +99,7 @@ def generate(src, env, out, summary):
 
     def handle(body, frame_src, prefix, label_of):
         """walk a statement list: remember the last sort / initialisations / enforce test, translate every iterrows loop"""
-        keys, init, enforce = None, {}, None
+        keys, init, enforce, types = None, {}, None, {}
         for st in body:
             k = sort_keys(st, frame_src)
             if k is not None:
@@ -111,23 +107,26 @@ def generate(src, env, out, summary):
                 continue
             e = enforce_shape(st, frame_src, env)
             if e is not None:
-                enforce = e
+                enforce = e[1:]
+                types[e[0]] = 'bool'
                 continue
-            if isinstance(st, ast.Assign) and len(st.targets) == 1 and isinstance(st.targets[0], ast.Name) \
-                    and st.targets[0].id in STATE_TYPES:
-                v = st.value
-                if isinstance(v, ast.Constant) and isinstance(v.value, int):
-                    init[st.targets[0].id] = str(v.value)
+            if isinstance(st, ast.Assign) and len(st.targets) == 1 and isinstance(st.targets[0], ast.Name):
+                v, nm = st.value, st.targets[0].id
+                if isinstance(v, ast.Constant) and isinstance(v.value, int) and not isinstance(v.value, bool):
+                    init[nm], types[nm] = str(v.value), 'nat'
                 elif isinstance(v, ast.Name) and isinstance(env.get(v.id), str):
-                    init[st.targets[0].id] = lean_str(env[v.id])
+                    init[nm], types[nm] = lean_str(env[v.id]), 'str'
+                elif isinstance(v, ast.Subscript) and isinstance(v.value, ast.Attribute) and v.value.attr == 'at' \
+                        and ast.unparse(v.value.value) == frame_src:
+                    init[nm], types[nm] = 'expr:' + ast.unparse(v), 'str'
                 else:
-                    init[st.targets[0].id] = 'expr:' + ast.unparse(v)
+                    raise Fail(f'statement before a loop: {ast.unparse(st)[:70]}')
                 continue
             if is_iterrows(st, frame_src):
                 nm = prefix + label_of(st, keys)
-                text, params, state, outs = translate_body(st, env, nm, frame_src)
+                text, params, state, outs = translate_body(st, env, nm, frame_src, dict(types))
                 defs.append(f'/-- body of the `{prefix}` loop that follows `sort_values(by={keys})` -/\n' + text)
-                meta.append((nm, keys, dict(init), enforce, params, state, outs))
+                meta.append((nm, keys, dict(init), enforce, params, state, outs, dict(types)))
 
     def pos_of_keys(keys):
         for p, w in POS.items():
@@ -211,14 +210,15 @@ def generate(src, env, out, summary):
     consts = '\n'.join(f'def {k} : Str := {lean_str(v)}' for k, v in sorted(C.USED_CONSTS.items()))
     ok = not failures
     mt = []
-    for nm, keys, init, enforce, params, state, outs in meta:
+    for nm, keys, init, enforce, params, state, outs, types in meta:
         mt.append(f'def {nm}_sortKeys : List Str := [' + ', '.join(lean_str(k) for k in (keys or [])) + ']')
-        for k in sorted(init):
-            v = init[k]
-            if v.startswith('expr:'):
-                mt.append(f'-- {nm}: {k} starts as `{v[5:]}`')
-            else:
-                mt.append(f'def {nm}_init_{k} : {LEAN_TY[STATE_TYPES[k]]} := {v}')
+        # initial values of the scalars the loop carries, in the order of the step's parameters (names do not enter)
+        carried = [q for q in params if types.get(q) != 'bool' and q in init and not init[q].startswith('expr:')]
+        for q in params:
+            if q in init and init[q].startswith('expr:'):
+                mt.append(f'-- {nm}: `{q}` starts as `{init[q][5:]}`')
+        if carried:
+            mt.append(f'def {nm}_init : ' + ' × '.join(LEAN_TY[types[q]] for q in carried) + ' := (' + ', '.join(init[q] for q in carried) + ')')
         mt.append(f'def {nm}_enforce : Option (Str × Str) := ' + (f'some ({lean_str(enforce[0])}, {lean_str(enforce[1])})' if enforce else 'none'))
     text = HEADER + f'''
 import MorphKgc.Model.Partition
